@@ -263,6 +263,21 @@ def _read_stdin(stdin):
                 break
             chunks.append(b)
         return b''.join(chunks).decode('utf-8', 'replace')
+    if hasattr(stdin, 'fileno'):
+        # a real child reads the file *descriptor* from its current OS-level offset: raw bytes, no newline translation,
+        # nothing of what the parent's file object has buffered but not flushed
+        try:
+            fd = stdin.fileno()
+        except Exception:  # noqa  (io.StringIO etc.: no descriptor)
+            fd = None
+        if fd is not None:
+            chunks = []
+            while True:
+                b = os.read(fd, 65536)
+                if not b:
+                    break
+                chunks.append(b)
+            return b''.join(chunks).decode('utf-8', 'replace')
     if hasattr(stdin, 'read'):
         try:
             data = stdin.read()
@@ -289,10 +304,8 @@ def _write(f, text):
         except Exception:  # noqa  (io.StringIO etc.: no descriptor)
             fd = None
         if fd is not None:
-            try:
-                f.flush()
-            except Exception:  # noqa
-                pass
+            # NO flush of the parent's file object: subprocess does not flush it either, so text the parent has written to `f`
+            # but not flushed lands AFTER what the child writes (found as KF-C10-STDOUT-ORDER when an earlier flush here hid it)
             data = text.encode('utf-8')
             while data:
                 n = os.write(fd, data)
